@@ -43,6 +43,12 @@ fn check(c: &Case, obs: &mut Obs) -> Result<(), Fail> {
     let depth = c.depth as u32;
     let total = 1u32 << depth;
     let kind = kind_name(c.compact);
+    // Erased memory is zeros: a seed that itself looks like erased memory cannot be told apart from it
+    // (and a shrinker would walk a genuine failure into that corner). Such seeds are outside the domain.
+    if c.seed.iter().filter(|b| **b == 0).count() > 8 {
+        obs.discard();
+        return Ok(());
+    }
     let tree = RefTree::new(depth, &c.seed);
     let mut classes: Vec<String> = vec![format!("{kind}:depth{depth}")];
     let mut scans = 0u64;
@@ -135,10 +141,11 @@ pub fn run(s: &Session) {
          whole subtree is regenerated from its stored seed; distinct = distinct case",
     );
     s.assume("the reference tree is the construction the module documents; alignment is checked through vk equality");
+    s.assume("seeds with more than 8 zero bytes are discarded: a 32-byte window of erased (zero) memory must not be mistaken for a secret");
     s.assume("secrets that only ever live on the stack (temp_buffer, r0) are not observable through as_bytes()");
 
-    s.forall("full-history-depth1-4", s.pick(12_000, 200_000), || case(1..=4), check);
-    s.forall("full-history-depth5-7", s.pick(3_600, 60_000), || case(5..=7), check);
+    s.forall("full-history-depth1-4", s.pick(15_000, 300_000), || case(1..=4), check);
+    s.forall("full-history-depth5-7", s.pick(4_500, 90_000), || case(5..=7), check);
 
     if !s.replaying() {
         for kind in ["sum", "compact"] {
